@@ -287,8 +287,11 @@ class Report:
         ev["coverage"].update(self.notes)
         if self.known:
             ev["coverage"]["known_findings_reported"] = self.known
-        os.makedirs(os.path.join(ROOT, "evidence"), exist_ok=True)
-        json.dump(ev, open(os.path.join(ROOT, "evidence", self.pid + ".json"), "w"), indent=1, default=str)
+        # tools/seedtest.sh (runs against a deliberately broken tree) sets VERIF_EVIDENCE_DIR so that the committed evidence,
+        # which must describe runs on /repo as it is, is not overwritten
+        evdir = os.environ.get("VERIF_EVIDENCE_DIR") or os.path.join(ROOT, "evidence")
+        os.makedirs(evdir, exist_ok=True)
+        json.dump(ev, open(os.path.join(evdir, self.pid + ".json"), "w"), indent=1, default=str)
         for k in self.known:
             print("KNOWN-FINDING: property=%s %s" % (self.pid, k))
         for what, path, nofail in self.violations:
